@@ -78,6 +78,13 @@ def gen_case(rng, tier, est=None, seeded=None):
         init = sig6(X[idx] + rs.randn(k, d) * 0.05 * (X.std(axis=0) + 1e-9))
         if k > 1 and est == "kmeans" and rng.random() < 0.1:
             init[-1] = init[-1] + 1e3 * (np.abs(X).max() + 1.0)  # a cluster that stays empty
+        if est == "kmeans" and seeded is None and rng.random() < 0.15:
+            # quantised samples on a small dyadic grid: exact ties are common, all sums exact
+            step = rng.choice([1.0, 1.0, 0.5, 2.0])
+            X = rs.randint(-3, 4, size=(n, d)).astype(float) * step
+            init = rs.randint(-3, 4, size=(k, d)).astype(float) * step
+            case["grid"] = step
+            seeded = False
         smax = float(np.abs(X).max()) or 1.0
         seeded = (rng.random() < 0.15) if seeded is None else seeded
         if est == "gmm_kminit":
@@ -385,6 +392,10 @@ def _near_tie(case, o):
             return False
         d2 = ((X[None] - c[:, None]) ** 2).sum(-1)
         if d2.shape[0] > 1:
+            if case.get("grid"):
+                from .c04 import _ties_are_exact
+                if _ties_are_exact(X, c, 1e-9 * s * s):
+                    continue  # decided by first index on every path, not by rounding
             ds = np.sort(d2, axis=0)
             if ((ds[1] - ds[0]) <= 1e-9 * s * s).any():
                 return True
@@ -399,6 +410,7 @@ def run_case(case, replay=None):
     _KEEP.clear()
     rec.probe("same_estimator_object_refitted", bool(case.get("reuse_obj")))
     rec.probe("own_ubm_from_shared_ubm_kwargs", bool(case.get("own_ubm")))
+    rec.probe("integer_grid_data_with_exact_ties", bool(case.get("grid")))
     if "X" in case:
         s = float(np.abs(A(case["X"])).max()) or 1.0
     else:
